@@ -79,6 +79,9 @@ def frame_consistency(index: RepoIndex, rep, rule: str, geo: Geometry, pipe: Pip
             # not a verdict: the expression is outside what the pose algebra interprets
             raise AnalysisError(f'view area / rotation expression cannot be interpreted in '
                                 f'the pose algebra: {e}')
+        if B[0] == 'X' or rot[0] == 'X':
+            raise AnalysisError(f'view area / rotation expression cannot be interpreted in the '
+                                f'pose algebra: `{src(area_e)}` -> {str(B)[:60]}')
         if B[0] != 'A' or rot[0] != 'O':
             rep.violation(rule, OBS, 'from_visibility', fn.node.lineno, src(pipe.grid_def),
                           f'`{src(area_e)}` is not an area or `{src(rot_e)}` not an orientation')
